@@ -5,6 +5,7 @@ import (
 	"fmt"
 	"github.com/dave/dst/decorator/resolver/goast"
 	"go/ast"
+	"go/parser"
 	"go/token"
 	"go/types"
 	"sort"
@@ -175,6 +176,36 @@ func c10One(c *fw.Ctx, id string, i int) {
 			}
 		}
 	}
+	// ... or file by file, each in a file set of its own, with one syntax-based resolver shared by
+	// all of them (its per-file state must not mix up files of different file sets)
+	var sharedGoast *goast.DecoratorResolver
+	var ownFsetFiles map[int]*dst.File
+	if asPackage && r.Intn(2) == 0 {
+		asPackage = false
+		names := map[string]string{}
+		for _, l := range gen.Libs {
+			names[l.ImportPath] = l.Name
+		}
+		sharedGoast = goast.WithResolver(simple.New(names))
+		ownFsetFiles = map[int]*dst.File{}
+		for k, fs := range p.Files {
+			fset := token.NewFileSet()
+			af2, err := parser.ParseFile(fset, fs.Name, fs.Src, parser.ParseComments)
+			if err != nil {
+				sharedGoast = nil
+				break
+			}
+			df2, err := decorator.NewDecoratorWithImports(fset, p.PkgPath, sharedGoast).DecorateFile(af2)
+			if err != nil {
+				c.Violate("decorate-error", "decorate-error:shared-goast", id+": "+err.Error(), fs.Src)
+				return
+			}
+			ownFsetFiles[k] = df2
+		}
+		if sharedGoast != nil {
+			c.Count("histories_decorated_with_shared_goast_and_own_filesets", 1)
+		}
+	}
 	var pkgNode *dst.Package
 	if asPackage {
 		names := map[string]string{}
@@ -197,7 +228,9 @@ func c10One(c *fw.Ctx, id string, i int) {
 	for k, af := range files {
 		var df *dst.File
 		var err error
-		if pkgNode != nil {
+		if sharedGoast != nil {
+			df = ownFsetFiles[k]
+		} else if pkgNode != nil {
 			df = pkgNode.Files[fmt.Sprintf("m%d.go", k)]
 			if df == nil {
 				c.Violate("decorate-error", "decorate-error:package", id+": file missing in the decorated package", "")
